@@ -399,6 +399,8 @@ class Interp:
             return d
         if isinstance(v, (int, bool)):
             return int(v)
+        if isinstance(v, Opaque):
+            return v
         raise Unrecognised("cast of %r to %s" % (v, e.get("ty")))
 
     def ev_un(self, e, env):
